@@ -134,6 +134,13 @@ type Exec struct {
 	specDone         map[string]bool
 	inContract       int
 	curPkg           *packages.Package
+	borrows          []borrow
+	lastFieldOnly    map[types.Object]map[string]bool
+	pendingFieldOnly map[types.Object]map[string]bool
+	borrowArgs       map[ast.Expr]bool
+	borrowCall       *ast.CallExpr
+	recvLv           ast.Expr
+	recvPath         []int
 	quiet            bool // suppress side obligations (inlined callee bodies, contract evaluation)
 	inputs           []modelReq
 	stack            []string
@@ -418,6 +425,8 @@ func (e *Exec) ghostDefault(k string, other Val) (Val, bool) {
 		return Val{T: e.sc.Const("alloc0", SInt)}, true
 	case k == "closed":
 		return Val{T: e.closed0()}, true
+	case k == "received":
+		return Val{T: e.received0()}, true
 	case k == "trace":
 		e.declEvent()
 		return Val{T: e.sc.Const("trace0", SlcSort("Event"))}, true
@@ -588,6 +597,8 @@ func (e *Exec) stmt(st *State, s ast.Stmt) {
 		e.switchStmt(st, s)
 	case *ast.TypeSwitchStmt:
 		e.typeSwitch(st, s)
+	case *ast.SelectStmt:
+		e.selectStmt(st, s)
 	case *ast.DeferStmt:
 		e.deferStmt(st, s)
 	case *ast.GoStmt:
@@ -635,9 +646,6 @@ func (e *Exec) branch(st *State, s *ast.BranchStmt) {
 
 func (e *Exec) ret(st *State, s *ast.ReturnStmt) {
 	f := e.top()
-	if len(e.frames) == 1 {
-		e.returnsiteChecks(st, s)
-	}
 	var vals []Val
 	if len(s.Results) == 0 {
 		for _, r := range f.results {
@@ -658,6 +666,9 @@ func (e *Exec) ret(st *State, s *ast.ReturnStmt) {
 		if i < len(vals) && r != nil {
 			st.vars[r] = vals[i]
 		}
+	}
+	if len(e.frames) == 1 {
+		e.returnsiteChecks(st, s, vals)
 	}
 	f.returns = append(f.returns, &retRec{st: st.clone(), vals: vals, ndefer: len(f.defers)})
 	st.dead = true
@@ -794,6 +805,37 @@ func (e *Exec) switchStmt(st *State, s *ast.SwitchStmt) {
 		}
 	}
 	ends = append(ends, rest)
+	f.jumps = f.jumps[:len(f.jumps)-1]
+	ends = append(ends, jf.breaks...)
+	e.setState(st, e.merge(ends...))
+}
+
+// selectStmt: exactly one communication clause proceeds, chosen arbitrarily (which channels are ready is outside
+// the sequential model); its communication is executed like the statement it is, then its body.
+func (e *Exec) selectStmt(st *State, s *ast.SelectStmt) {
+	jf := &jumpFrame{}
+	f := e.top()
+	f.jumps = append(f.jumps, jf)
+	var ends []*State
+	rest := st.clone()
+	for i, c := range s.Body.List {
+		cc := c.(*ast.CommClause)
+		taken := rest
+		if i < len(s.Body.List)-1 {
+			choice := e.sc.Fresh("selected", SBool)
+			taken = e.fork(rest, choice)
+			rest = e.fork(rest, Not(choice))
+		}
+		if cc.Comm != nil {
+			e.stmt(taken, cc.Comm)
+		}
+		e.block(taken, cc.Body)
+		ends = append(ends, taken)
+	}
+	if len(s.Body.List) == 0 {
+		rest.dead = true // select {} blocks forever
+		ends = append(ends, rest)
+	}
 	f.jumps = f.jumps[:len(f.jumps)-1]
 	ends = append(ends, jf.breaks...)
 	e.setState(st, e.merge(ends...))
@@ -997,6 +1039,7 @@ func (e *Exec) evMulti(st *State, x ast.Expr, n int) []Val {
 				et = tup.At(0).Type()
 			}
 			e.note("channel receive modelled as an arbitrary value at " + e.posStr(x.Pos()))
+			e.markReceived(st, e.ev(st, x.X))
 			return []Val{e.freshVal("recv", et), {T: e.sc.Fresh("recvok", SBool), GT: types.Typ[types.Bool]}}
 		}
 	}
@@ -1152,6 +1195,7 @@ type loopInfo struct {
 	assigned  map[types.Object]bool
 	heapW     bool
 	heapNames map[string]bool
+	fieldOnly map[types.Object]map[string]bool
 	pos       token.Pos
 }
 
@@ -1193,6 +1237,7 @@ func (e *Exec) assignedIn(nodes ...ast.Node) (map[types.Object]bool, bool) {
 	info := e.info()
 	out := map[types.Object]bool{}
 	heapW := false
+	e.lastFieldOnly = nil
 	seenLit := map[*ast.FuncLit]bool{}
 	var visit func(n ast.Node)
 	root := func(x ast.Expr) {
@@ -1209,6 +1254,7 @@ func (e *Exec) assignedIn(nodes ...ast.Node) (map[types.Object]bool, bool) {
 			e.lastHeapNames[name] = true
 			e.heapSorts[name] = sort
 		}
+		var parent ast.Expr
 		for {
 			switch y := ast.Unparen(x).(type) {
 			case *ast.Ident:
@@ -1218,9 +1264,28 @@ func (e *Exec) assignedIn(nodes ...ast.Node) (map[types.Object]bool, bool) {
 				}
 				if obj != nil {
 					out[obj] = true
+					// x.f... = v on a local struct variable writes only field f of it
+					field := ""
+					if ps, ok := parent.(*ast.SelectorExpr); ok {
+						if sel := info.Selections[ps]; sel != nil && sel.Kind() == types.FieldVal && len(sel.Index()) == 1 {
+							field = ps.Sel.Name
+						}
+					}
+					if e.lastFieldOnly == nil {
+						e.lastFieldOnly = map[types.Object]map[string]bool{}
+					}
+					if field == "" {
+						e.lastFieldOnly[obj] = map[string]bool{"": true}
+					} else {
+						if e.lastFieldOnly[obj] == nil {
+							e.lastFieldOnly[obj] = map[string]bool{}
+						}
+						e.lastFieldOnly[obj][field] = true
+					}
 				}
 				return
 			case *ast.SelectorExpr:
+				parent = y
 				if t := info.TypeOf(y.X); t != nil {
 					if pt, ok := t.Underlying().(*types.Pointer); ok {
 						n, s := e.ptrHeap(pt.Elem())
@@ -1243,6 +1308,7 @@ func (e *Exec) assignedIn(nodes ...ast.Node) (map[types.Object]bool, bool) {
 				}
 				x = y.X
 			case *ast.IndexExpr:
+				parent = y
 				if t := info.TypeOf(y.X); t != nil {
 					if mt, ok := t.Underlying().(*types.Map); ok {
 						n, s := e.mapHeap(mt)
@@ -1301,6 +1367,45 @@ func (e *Exec) assignedIn(nodes ...ast.Node) (map[types.Object]bool, bool) {
 					root(n.Value)
 				}
 			case *ast.CallExpr:
+				// f(&lv) and lv.M() with a pointer receiver write lv when the call returns (borrowed cell)
+				for _, a := range n.Args {
+					if u, ok := ast.Unparen(a).(*ast.UnaryExpr); ok && u.Op == token.AND {
+						if _, isLit := ast.Unparen(u.X).(*ast.CompositeLit); !isLit {
+							root(u.X)
+						}
+					}
+				}
+				if f, ok := ast.Unparen(n.Fun).(*ast.SelectorExpr); ok {
+					if sel := info.Selections[f]; sel != nil && sel.Kind() == types.MethodVal {
+						if sig, ok := sel.Obj().Type().(*types.Signature); ok && sig.Recv() != nil {
+							_, wantPtr := sig.Recv().Type().Underlying().(*types.Pointer)
+							rt := info.TypeOf(f.X)
+							if len(sel.Index()) > 1 {
+								rt = nil // promoted through embedded fields: decide on the embedded field's type
+								t := info.TypeOf(f.X)
+								for _, i := range sel.Index()[:len(sel.Index())-1] {
+									if p, isP := t.Underlying().(*types.Pointer); isP {
+										t = p.Elem()
+									}
+									st, isS := t.Underlying().(*types.Struct)
+									if !isS {
+										t = nil
+										break
+									}
+									t = st.Field(i).Type()
+								}
+								rt = t
+							}
+							if rt != nil {
+								if _, havePtr := rt.Underlying().(*types.Pointer); wantPtr && !havePtr {
+									if _, isIface := rt.Underlying().(*types.Interface); !isIface {
+										root(f.X)
+									}
+								}
+							}
+						}
+					}
+				}
 				// a callee under contract with an explicit modifies list writes exactly those heaps
 				if names, ok := e.contractHeapNames(info, n); ok {
 					if e.lastHeapNames == nil {
@@ -1529,6 +1634,9 @@ func (e *Exec) nodeWritesHeap(info *types.Info, node ast.Node, depth int) bool {
 	return writes
 }
 
+// freshCellOnly marks a heap that a loop writes only in cells it allocates itself (f(&local) with `modifies p`).
+const freshCellOnly = "\x01fresh"
+
 func (e *Exec) havocVars(st *State, assigned map[types.Object]bool, heapW bool, why string) {
 	keys := make([]types.Object, 0, len(assigned))
 	for o := range assigned {
@@ -1542,6 +1650,23 @@ func (e *Exec) havocVars(st *State, assigned map[types.Object]bool, heapW bool, 
 			}
 			nv := e.freshVal(o.Name(), o.Type())
 			nv.Orig = cur.Orig
+			if fs := e.pendingFieldOnly[o]; len(fs) > 0 && !fs[""] {
+				// only some fields of this struct variable are assigned in the loop: the others keep their values
+				if si := e.sr.structInfoOf(cur.T.Sort); si != nil {
+					part, okAll := cur.T, true
+					for _, fname := range sortedKeys(fs) {
+						fi, f := si.field(fname)
+						if f == nil {
+							okAll = false
+							break
+						}
+						part = si.set(part, fi, si.get(nv.T, fi))
+					}
+					if okAll {
+						nv = Val{T: part, GT: cur.GT, Orig: cur.Orig}
+					}
+				}
+			}
 			st.vars[o] = nv
 		} else if o.Pkg() != nil && o.Parent() == o.Pkg().Scope() {
 			k := "G:" + o.Pkg().Path() + "." + o.Name()
@@ -1561,6 +1686,18 @@ func (e *Exec) havocVars(st *State, assigned map[types.Object]bool, heapW bool, 
 				srt = h.Sort
 			}
 			if srt == "" {
+				continue
+			}
+			if len(parts) >= 2 && parts[1] == freshCellOnly {
+				// only cells allocated inside the loop are written: every cell that existed on entry keeps its value
+				cnt, ok := st.ghosts["alloc"]
+				if !ok {
+					cnt = Val{T: e.sc.Const("alloc0", SInt)}
+				}
+				old := e.heapRead(st, k, srt)
+				nh := e.sc.Fresh("heap_"+k, srt)
+				e.sc.Assert(T(SBool, fmt.Sprintf("(forall ((r Int)) (! (=> (< r %s) (= (select %s r) (select %s r))) :pattern ((select %s r))))", cnt.T.S, nh.S, old.S, nh.S)))
+				st.heaps[k] = nh
 				continue
 			}
 			if len(parts) >= 2 {
@@ -1586,9 +1723,16 @@ func (e *Exec) havocVars(st *State, assigned map[types.Object]bool, heapW bool, 
 		e.note("cells named in modifies lists havocked: " + why)
 	}
 	e.pendingHeapNames = nil
+	e.pendingFieldOnly = nil
 }
 
 // takeHeapNames hands the heap names collected by the last assignedIn to the next havocVars.
+func (e *Exec) takeFieldOnly() map[types.Object]map[string]bool {
+	n := e.lastFieldOnly
+	e.lastFieldOnly = nil
+	return n
+}
+
 func (e *Exec) takeHeapNames() map[string]bool {
 	n := e.lastHeapNames
 	e.lastHeapNames = nil
@@ -1619,6 +1763,7 @@ func (e *Exec) forStmt(st *State, s *ast.ForStmt, label string) {
 	li := &loopInfo{key: ord, invs: e.findInvs(ord, hdr), pos: s.Pos()}
 	li.assigned, li.heapW = e.assignedIn(s.Body, s.Post, s.Cond)
 	li.heapNames = e.takeHeapNames()
+	li.fieldOnly = e.takeFieldOnly()
 	env := func(st *State) *cenv { return e.loopEnv(st, s.Pos(), nil) }
 	e.loopCore(st, li, label, env,
 		func(st *State) Term {
@@ -1646,6 +1791,7 @@ func (e *Exec) loopCore(st *State, li *loopInfo, label string, env func(*State) 
 	}
 	e.checkInvs(st, li, "init", env)
 	e.pendingHeapNames, e.pendingPos = li.heapNames, li.pos
+	e.pendingFieldOnly = li.fieldOnly
 	e.havocVars(st, li.assigned, li.heapW, "loop at "+e.posStr(li.pos))
 	e.ghostEffects(st, func(s *State) {
 		b := e.fork(s, cond(s))
@@ -1709,6 +1855,7 @@ func (e *Exec) rangeStmt(st *State, s *ast.RangeStmt, label string) {
 	li := &loopInfo{key: ord, invs: e.findInvs(ord, hdr), pos: s.Pos()}
 	li.assigned, li.heapW = e.assignedIn(s.Body)
 	li.heapNames = e.takeHeapNames()
+	li.fieldOnly = e.takeFieldOnly()
 	xv := e.ev(st, s.X)
 	idx := e.synthVar("idx", types.Typ[types.Int])
 	st.vars[idx] = Val{T: IntLit(0), GT: types.Typ[types.Int]}
@@ -1813,6 +1960,7 @@ func (e *Exec) rangeStmt(st *State, s *ast.RangeStmt, label string) {
 		keyName = keyObj.Name()
 	}
 	_, isMap := xv.GT.Underlying().(*types.Map)
+	loopEntry := st.clone()
 	env := func(st *State) *cenv {
 		extra := map[string]Val{"idx": st.vars[idx]}
 		if keyName != "" && !isMap {
@@ -1824,6 +1972,7 @@ func (e *Exec) rangeStmt(st *State, s *ast.RangeStmt, label string) {
 			extra["iter"] = xv // the slice being ranged over (evaluated once, before the loop)
 		}
 		env := e.loopEnv(st, s.Body.Pos(), extra)
+		env.loopOld = loopEntry
 		return env
 	}
 	if seqVal != nil {
@@ -1844,6 +1993,7 @@ func (e *Exec) rangeStmt(st *State, s *ast.RangeStmt, label string) {
 	}
 	e.checkInvs(st, li, "init", env)
 	e.pendingHeapNames, e.pendingPos = li.heapNames, li.pos
+	e.pendingFieldOnly = li.fieldOnly
 	e.havocVars(st, li.assigned, li.heapW, "loop at "+e.posStr(li.pos))
 	e.ghostEffects(st, func(s0 *State) {
 		b := e.fork(s0, Lt(s0.vars[idx].T, n))
@@ -1904,9 +2054,11 @@ func (e *Exec) rangeFunc(st *State, s *ast.RangeStmt, xv Val, label string) {
 	li := &loopInfo{key: ord, invs: e.findInvs(ord, hdr), pos: s.Pos()}
 	li.assigned, li.heapW = e.assignedIn(s.Body)
 	li.heapNames = e.takeHeapNames()
+	li.fieldOnly = e.takeFieldOnly()
 	env := func(st *State) *cenv { return e.loopEnv(st, s.Body.Pos(), nil) }
 	e.checkInvs(st, li, "init", env)
 	e.pendingHeapNames, e.pendingPos = li.heapNames, li.pos
+	e.pendingFieldOnly = li.fieldOnly
 	e.havocVars(st, li.assigned, li.heapW, "loop at "+e.posStr(li.pos))
 	e.assumeInvs(st, li, env)
 	more := e.sc.Fresh("itermore", SBool)
